@@ -784,7 +784,15 @@ func importErrorsReachTheScript(c *core.Ctx) {
 	t := VMTable(p)
 	eval := p.SSAFunc(t.Eval)
 	n := 0
-	for _, b := range eval.Blocks {
+	// the dispatch function, and the methods that the import clauses hand their work to
+	var blocks []*ssa.BasicBlock
+	blocks = append(blocks, eval.Blocks...)
+	for _, h := range t.HelpersOf("Import", "FromImport") {
+		if hf := p.SSAFunc(h); hf != nil {
+			blocks = append(blocks, hf.Blocks...)
+		}
+	}
+	for _, b := range blocks {
 		for _, in := range b.Instrs {
 			call, ok := in.(*ssa.Call)
 			if !ok {
